@@ -50,6 +50,13 @@ def run(ctx):
                   "%s has %d rows but the constructor admits b in [%d, %d] (%d precisions): count() would index out of bounds or use the wrong row" % (name, len(tbl), lo, hi, rows))
     for n, v in sorted(offs.items()):
         ctx.check(v == lo, "R03-table-shape", D + n, prog.consts[D + n]["span"], "%s == %d (smallest admitted b)" % (n, lo), "%s is %s but the smallest admitted b is %d" % (n, v, lo))
+    # linear counting m*ln(m/V) is only usable while n is of the order of m: the property tolerates its hand-over bump for n in
+    # [0.5 m, 2 m] only, so a threshold above 2 m keeps linear counting beyond the tolerated window (and 0 would disable it)
+    offwin = [(lo + r, v) for r, v in enumerate(thr) if not (isinstance(v, int) and 0 < v <= 2 * (1 << (lo + r)))]
+    mono = all(thr[r] < thr[r + 1] for r in range(len(thr) - 1))
+    ctx.check(not offwin and mono, "R03-threshold-window", D + "THRESHOLD_DATA_VEC:window", prog.consts[D + "THRESHOLD_DATA_VEC"]["span"],
+              "0 < THRESHOLD[b] <= 2 * 2^b for every b, increasing with b",
+              "linear-counting thresholds outside (0, 2 * 2^b] or not increasing: %s — linear counting would be used beyond the hand-over window the property tolerates" % (offwin[:3] or "not monotone"))
     bad = [r for r in range(min(len(raw), len(bias))) if len(raw[r]) != len(bias[r]) or len(raw[r]) < K]
     ctx.check(not bad, "R03-table-shape", D + "RAW==BIAS", prog.consts[D + "BIAS_DATA_VEC"]["span"],
               "every row: len(RAW[r]) == len(BIAS[r]) >= K = %d (%d rows, %d values)" % (K, len(raw), sum(map(len, raw))),
